@@ -74,8 +74,8 @@ def expectedBrackets : List (String × String) := [
 
 /-- the sites whose removal is a cancel closure handed to the caller: (function, table) -/
 def expectedHandles : List (String × String) := [
-  ("Conn.AsyncPing", "tokenHandlerContainer"),
-  ("Conn.AsyncPing", "midHandlerContainer")]
+  ("Conn.asyncPing", "tokenHandlerContainer"),
+  ("Conn.asyncPing", "midHandlerContainer")]
 
 def isBracketCls : Option Cls → Bool
   | some .bracket => true | some .bracketExpiring => true | _ => false
